@@ -13,10 +13,39 @@ EXPLANATION = (
     "(parse_long_arg, possible_subcommand, possible_long_flag_subcommand): Iterator::next is called twice on one iterator and "
     "the first item is returned only on the is_none edge of the second; the exact lookup is tried as well so an exact name "
     "wins; the candidate iterator covers names and ALL aliases (get_all_aliases / get_all_long_flag_aliases / Arg::aliases). "
-    "NOT decided: equality of matches under rewrites (needs execution)."
+    "R8.4 the escape token itself changes nothing but the mode: in Parser::parse the region entered on is_escape() calls no ArgMatcher/Parser mutator other than start_trailing (in particular it does not resolve the pending positional, so `a -- b` groups values like `a b`). R8.2b alias siblings: aliases_to / short_flag_aliases_to / long_flag_aliases_to answer `primary spelling || any(all aliases)` on every path. NOT decided: equality of matches under rewrites (needs execution)."
 )
 TRUSTED = ["rustc MIR", "clapfacts"]
 ASSUMPTIONS = ["C13 R13.3 (split at the first `=`) and C02 R2.4 (short attached value) are checked by their own properties too"]
+
+
+def alias_siblings(fx, res, rule):
+    """Command::{aliases_to, short_flag_aliases_to, long_flag_aliases_to}: a subcommand answers to its primary name/flag or to ANY
+    of its aliases — every way the functions produce their result is `true` under an equality with the primary spelling or the
+    result of any() over the complete alias iterator (also when there is no primary flag)."""
+    TBL = {"aliases_to": ("get_all_aliases(self)", r"^T:eq\(get_name\(self\),name\)$"),
+           "short_flag_aliases_to": ("get_all_short_flag_aliases(self)", r"^T:eq\((Option::Some\(flag\),self\.short_flag|self\.short_flag,Option::Some\(flag\))\)$"),
+           "long_flag_aliases_to": ("get_all_long_flag_aliases(self)", r"^T:eq\(self\.long_flag#Some\.0,flag\)$")}
+    for fn_, (it, eqrx) in TBL.items():
+        b = fx.body("clap_builder::builder::command::Command::" + fn_)
+        defs = b.def_sites(0)
+        bad, n_any = [], 0
+        for d in defs:
+            rv = d[3]
+            if isinstance(rv, dict):
+                if rv["k"] == "use" and op_int(rv["op"]) == 1 and any(re.match(eqrx, g) for g in guard_strs(b, d[0])):
+                    continue
+                bad.append("bb%d: %s under %s" % (d[0], rv.get("k"), [g[:50] for g in guard_strs(b, d[0])]))
+            else:
+                cbe = [expr(cb, 0) for cb in closure_bodies(fx, rv)]
+                okc = rv.callee_q.endswith("::any") and expr(b, rv.args[0]) == it and any(re.fullmatch(r"(eq|Eq)\((alias,arg1\.0|arg1\.0,alias)\)", e) for e in cbe)
+                if okc:
+                    n_any += 1
+                else:
+                    bad.append("bb%d: %s(%s)" % (d[0], rv.callee_q.rsplit("::", 1)[1], expr(b, rv.args[0])[:50]))
+        # no path may return without having compared the aliases or hit the primary spelling: every return def is one of the two forms
+        res.check(not bad and n_any >= 1, rule, "alias-sibling|" + fn_, b.where(), "primary spelling || any(%s == query)" % it,
+                  "%s can answer without consulting %s (%s): a subcommand is not recognised by some of its aliases" % (fn_, it, bad or "no any() over the aliases"))
 
 
 def run(ctx):
@@ -100,3 +129,12 @@ def run(ctx):
     b = fx.body("clap_builder::parser::parser::Parser::possible_subcommand")
     res.check(not tree_calls(b, r"Command::get_aliases$", r"Command::get_visible_aliases$"), "R8.3", "no-partial-alias-set|possible_subcommand", b.where(), "no visible-only / hidden-only alias iterator used",
               "possible_subcommand infers from a partial alias set (get_aliases/get_visible_aliases)")
+
+    alias_siblings(fx, res, "R8.2")
+    # ---- R8.4 `--` only switches the mode
+    pp = fx.body("clap_builder::parser::parser::Parser::parse")
+    esc = [c for c in pp.calls() if not sp_macro(c.sp) and has_bool(pp, c.bb, "T", r"^is_escape\(") and c.callee_q and re.search(r"::(ArgMatcher|Parser)::", c.callee_q)]
+    res.floor("R8.4", "mutator calls in the escape region of parse", len(esc), 1)
+    other = [c for c in esc if not c.is_(r"ArgMatcher::start_trailing$")]
+    res.check(not other, "R8.4", "escape-only-switches-mode", esc[0].where() if esc else pp.where(), "on `--` only start_trailing is called",
+              "on the `--` token parse also calls %s: the explicit escape changes how values before/after it are grouped" % [c.callee_q.rsplit("::", 1)[1] for c in other])
